@@ -11,6 +11,11 @@ import (
 func (core *JApiCore) collectMacro() *jerr.JApiError {
 	for i := 0; i != len(core.directives); i++ {
 		if core.directives[i].Type() == directive.Macro {
+			if i == 0 {
+				// Nothing but MACRO definitions (which are taken out of the list here) precede this one: it is the first
+				// directive of the document, and the later check of the first directive would not see it anymore.
+				return core.directives[i].KeywordError(jerr.DirectiveJSIGHTShouldBeTheFirst)
+			}
 			if je := core.addMacro(core.directives[i]); je != nil {
 				return je
 			}
